@@ -1288,6 +1288,79 @@ def m_slice_first(it, args, fr, callee):
     return some(Ref(s.buf, s.start)) if n > 0 else none()
 
 
+def _key_scalars(k):
+    """flatten a sort / dedup key (integer scalars and tuples of them) into a list of Sc"""
+    if type(k) is Ref:
+        k = k.cont[k.key]
+    if type(k) is Sc:
+        return [k]
+    if type(k) is Agg:
+        out = []
+        for f in k.fields:
+            out += _key_scalars(f)
+        return out
+    raise Unsupported('sort / dedup key %r' % (k,))
+
+
+def _key_less(it, ka, kb):
+    """lexicographic a < b on unsigned integer keys, forking the path on every symbolic comparison"""
+    for a, b in zip(ka, kb):
+        if a.t in SIGNED or a.t == 'f64':
+            raise Unsupported('sort key of type %s' % a.t)
+        A, B = it.bv(a), it.bv(b)
+        if it.branch(z3.ULT(A, B)):
+            return True
+        if not it.branch(A == B):
+            return False
+    return False
+
+
+def _key_equal(it, ka, kb):
+    for a, b in zip(ka, kb):
+        if not it.branch(it.bv(a) == it.bv(b)):
+            return False
+    return True
+
+
+@model('core::slice::sort_unstable_by_key', 'slice::sort_unstable_by_key', 'core::slice::sort_by_key', 'slice::sort_by_key',
+       'alloc::slice::sort_by_key', 'core::slice::sort_by_cached_key', 'slice::sort_by_cached_key')
+def m_slice_sort_by_key(it, args, fr, callee):
+    # insertion sort (stable); with symbolic keys every comparison the order depends on forks the path.  An UNSTABLE sort may
+    # order equal keys either way: the consumer's independence of that order is its own obligation
+    s = as_slice(args[0])
+    n = it.concretize(Sc('usize', s.len), 'slice length')
+    st = it.concretize(Sc('usize', s.start), 'slice start')
+    items = [s.buf[st + i] for i in range(n)]
+    keys = [_key_scalars(it.call_value(args[1], [Ref(s.buf, st + i)], fr)) for i in range(n)]
+    order = []
+    for i in range(n):
+        j = len(order)
+        while j > 0 and _key_less(it, keys[i], keys[order[j - 1]]):
+            j -= 1
+        order.insert(j, i)
+    for pos, i in enumerate(order):
+        s.buf[st + pos] = items[i]
+    return UNIT
+
+
+@model('Vec::dedup_by_key', 'std::vec::Vec::dedup_by_key')
+def m_vec_dedup_by_key(it, args, fr, callee):
+    v = deref_vec(args[0])
+    if not v.buf:
+        return UNIT
+    out = [v.buf[0]]
+    last = _key_scalars(it.call_value(args[1], [Ref(out, 0)], fr))
+    for x in v.buf[1:]:
+        cell = [x]
+        k = _key_scalars(it.call_value(args[1], [Ref(cell, 0)], fr))
+        if _key_equal(it, k, last):
+            continue
+        out.append(x)
+        last = k
+    v.buf[:] = out
+    return UNIT
+
+
 @model('std::slice::from_ref', 'core::slice::from_ref', 'slice::from_ref', 'std::slice::from_mut', 'core::slice::from_mut', 'slice::from_mut')
 def m_slice_from_ref(it, args, fr, callee):
     r = args[0]
